@@ -2,4 +2,5 @@
 let table : (string * (Model.sx -> Model.sx)) list = [
   "parts", Model.check_parts;
   "voteset", Model.check_voteset;
+  "valset", Model.check_valset;
 ]
